@@ -245,7 +245,12 @@ pub fn classify_msg(msg: &str) -> String {
         let t = msg.rsplit("cannot be parsed as a ").next().unwrap_or("");
         return format!("parse:{}", t.replace(' ', "_"));
     }
+    if msg.starts_with("cannot convert") && msg.contains(" to \"") {
+        // TryFrom<IrValue> / TryFrom<CircuitValue> of the wrong variant
+        return "other:type-convert".to_string();
+    }
     for (pre, class) in [
+        ("cannot reduce modulo zero", "other:zero-modulus"),
         ("assertion violated", "other:assert"),
         ("underflow subtracting", "other:underflow"),
         ("cannot convert", "other:cannot-convert"),
